@@ -19,6 +19,7 @@ import json
 import math
 import os
 import random
+import re
 
 from harness import catalog, tlaval
 from harness import ux as hux
@@ -39,22 +40,22 @@ def gen_cfg(mode, K=2, maxn=3, pair=1, pre=1, plain=1, fam=1, grow=1, seed=0):
     )
 
 
+_TAG = re.compile(r'^<< ?"(\w+)"', re.M)
+
+
 def parse_tagged(out, tags=("CASE", "SKIP")):
-    """PrintT values of the generator (TLC pretty-prints long values over several lines as '<< "TAG", ...')."""
+    """PrintT values with the given tags (TLC prints short values as '<<"TAG", ..>>' on one line and
+    pretty-prints long ones over several lines as '<< "TAG", ...')."""
     res = []
     i = 0
     while True:
-        j = out.find('<< "', i)
-        if j < 0:
+        m = _TAG.search(out, i)
+        if not m:
             break
-        if j > 0 and out[j - 1] != "\n":
-            i = j + 4
+        if m.group(1) not in tags:
+            i = m.end()
             continue
-        k = out.find('"', j + 4)
-        if out[j + 4 : k] not in tags:
-            i = j + 4
-            continue
-        v, i = tlaval.parse_prefix(out, j)
+        v, i = tlaval.parse_prefix(out, m.start())
         res.append(v)
     return res
 
@@ -312,7 +313,7 @@ def judge(ctx, recs, workers=8):
     if res.distinct != len(recs) + nblocks:
         raise Machinery("judge visited %d states for %d records in %d blocks" % (res.distinct, len(recs), nblocks))
     verdicts = {}
-    for v in parse_tagged(res.out, tags=("V", "X")) + [p for p in res.prints if isinstance(p, tuple) and p and p[0] in ("V", "X")]:
+    for v in parse_tagged(res.out, tags=("V", "X")):
         if v[0] == "X":
             raise Machinery("record %s is outside the quantifier" % (v[1],))
         verdicts[v[1]] = (sorted(v[2]), dict(v[3]))
@@ -354,6 +355,65 @@ def lonbox_model(ctx, thorough):
     ctx.note("lonbox_order_dependence_beyond_half_circle", "exhibited (counterexample depth %d)" % r2.depth)
 
 
+def lonbox_traces(ctx, rng, n):
+    """Code -> spec for the helper itself: random insertion orders are fed to the real (private)
+    _insert_pt_in_latlonbox on the cyclic lattice k * 2 pi / 24; TLC replays the LonBox machine over each
+    recorded trace and compares the box after every step.  Descriptive binding: a mismatch is MODEL-DRIFT."""
+    import numpy as np
+
+    hux.import_ux()
+    try:
+        from uxarray.grid.geometry import _insert_pt_in_latlonbox as ins
+        from uxarray.constants import INT_FILL_VALUE as FILL
+    except Exception as e:  # noqa - the helper is private: its absence is drift, not a verdict
+        print("MODEL-DRIFT: _insert_pt_in_latlonbox not importable (%s)" % e)
+        return
+    M = 24
+    step = TWO_PI / M
+
+    def proj(x):
+        k = x / step
+        return int(round(k)) % M if abs(k - round(k)) < 1e-9 else -7
+
+    recs = []
+    for t in range(n):
+        if t % 3 == 0:  # extent below half a circle, any order, repeats
+            base, width = rng.randrange(M), rng.randrange(1, M // 2)
+            pts = [(base + rng.randrange(width + 1)) % M for _ in range(rng.randrange(1, 9))]
+        else:  # anything
+            pts = [rng.randrange(M) for _ in range(rng.randrange(1, 9))]
+        box = np.full((2, 2), FILL, dtype=np.float64)
+        boxes = []
+        try:
+            for j, p in enumerate(pts):
+                box = ins(box, np.array([0.01 * j, p * step]))
+                boxes.append([proj(float(box[1][0])), proj(float(box[1][1]))])
+        except Exception as e:  # noqa
+            boxes += [[-7, -7]] * (len(pts) - len(boxes))
+        recs.append({"id": "t%d" % t, "pts": pts, "boxes": boxes})
+    path = os.path.join(ctx.work, "lonbox_traces.ndjson")
+    with open(path, "w") as fh:
+        for r in recs:
+            fh.write(json.dumps(r) + "\n")
+    res = ctx.tlc_ok(
+        "LonBoxTrace",
+        "INIT Init\nNEXT Next\nINVARIANT Accept\nCHECK_DEADLOCK FALSE\n",
+        what="validate %d recorded traces of _insert_pt_in_latlonbox against the LonBox machine" % n,
+        env={"REC_FILE": path},
+        workers=4,
+        count=False,
+        timeout=1500,
+    )
+    if res.distinct != n:
+        raise Machinery("LonBoxTrace visited %d states for %d traces" % (res.distinct, n))
+    rejected = parse_tagged(res.out, tags=("T",))
+    ctx.traces += n
+    ctx.note("lonbox_helper_traces", {"validated": n, "rejected": len(rejected)})
+    if rejected:
+        print("MODEL-DRIFT: %d of %d traces of _insert_pt_in_latlonbox differ from the LonBox machine, e.g. %s" % (len(rejected), n, rejected[0]))
+    os.remove(path)
+
+
 # ----------------------------------------------------------------------------- run
 def expand(cases, rng, both_dirs=True):
     """Cases -> replay items: both traversal directions; a corner at a pole with longitude 0 and with
@@ -372,6 +432,34 @@ def expand(cases, rng, both_dirs=True):
     return items
 
 
+GROUP = {
+    "Value": "value",
+    "LatMaxTight": "lat_max",
+    "EnclLatHi": "lat_max",
+    "LatMinTight": "lat_min",
+    "EnclLatLo": "lat_min",
+    "LonFull": "lon",
+    "LonWest": "lon",
+    "LonEast": "lon",
+    "Wrap": "lon",
+    "EnclLon": "lon",
+}
+
+
+def violation_sig(clause, sig, rec):
+    """Projection of the signature decided by TLC (JudgeBounds!Sig) onto the failed clause: which bound the
+    clause is about, and that bound's 'attained only at corners that start a bulging edge' flag."""
+    s = dict(sig)
+    g = GROUP[clause]
+    s["bound"] = g
+    s["bound_only_at_bulge_starters"] = bool(
+        (g == "lat_min" and sig["min_only_at_bulge_starters"]) or (g == "lat_max" and sig["max_only_at_bulge_starters"])
+    )
+    if clause == "Value":
+        s["error"] = rec["error"].split(":")[0]
+    return s
+
+
 def run(ctx):
     rng = random.Random(ctx.seed)
     thorough = ctx.tier == "thorough"
@@ -379,32 +467,38 @@ def run(ctx):
 
     # 1. model of the periodic interval growth
     lonbox_model(ctx, thorough)
+    lonbox_traces(ctx, rng, 2000 if thorough else 300)
 
-    # 2. generation (TLC): lattice triangles / quads / grown 5..8-gons, catalogue 5..8-gons
-    cases = []
+    # 2. generation (TLC)
     if thorough:
         tri, _ = generate_lattice(ctx, "all convex lattice triangles |c|<=2 inside the quantifier", K=2, maxn=3)
-        big, _ = generate_lattice(ctx, "convex lattice 4..8-gons |c|<=2 grown from a 1/12 sample of the triangles", K=2, maxn=8, pre=12, grow=3, plain=1, fam=1)
-        big = [c for c in big if len(c["f"]) > 3]
+        big, _ = generate_lattice(
+            ctx, "convex lattice 4..8-gons |c|<=2 grown corner by corner from 1/12 of the triangles (1/3 of the faces grow)", K=2, maxn=8, pre=12, grow=3
+        )
+        k3, _ = generate_lattice(
+            ctx, "convex lattice 3..8-gons |c|<=3: 1/2000 of the triangles, all one-hemisphere faces and 1/8 of the others", K=3, maxn=8, pair=10, pre=200, grow=8, plain=4
+        )
     else:
-        tri, _ = generate_lattice(ctx, "1/160 sample of the convex lattice triangles |c|<=2", K=2, maxn=3, pre=160)
-        big, _ = generate_lattice(ctx, "convex lattice 4..8-gons |c|<=2 grown from a 1/1500 sample of the triangles", K=2, maxn=8, pre=1500, grow=3)
-        big = [c for c in big if len(c["f"]) > 3]
+        tri, _ = generate_lattice(ctx, "1/100 of the convex lattice triangles |c|<=2; one-hemisphere faces all, others 1/2", K=2, maxn=3, pre=100, plain=2)
+        big, _ = generate_lattice(ctx, "convex lattice 4..8-gons |c|<=2 grown from 1/1500 of the triangles", K=2, maxn=8, pre=1500, grow=3, plain=2)
+        k3, _ = generate_lattice(
+            ctx, "convex lattice 3..8-gons |c|<=3: 1/40000 of the triangles, one-hemisphere faces all, others 1/16", K=3, maxn=8, pair=40, pre=400, grow=12, plain=8
+        )
+    big = [c for c in big if len(c["f"]) > 3]
     cat_faces = catalogue_faces()
-    if not thorough:
-        cat_faces = rng.sample(cat_faces, 300)
-    cat, skipped = generate_file(ctx, cat_faces, "catalogue 5..8-gons under Rot24 x start corner: quantifier membership and expected bounds")
+    cat, skipped = generate_file(ctx, cat_faces, "catalogue faces (3..8-gons) under Rot24 x start corner: quantifier membership and expected bounds")
     ctx.note("catalogue_faces_outside_quantifier", len(skipped))
-    cases = tri + big + cat
-    ctx.note("generated_cases", {"triangles": len(tri), "lattice_4_to_8_gons": len(big), "catalogue_5_to_8_gons": len(cat)})
+    ctx.note("generated_cases", {"triangles_c2": len(tri), "grown_4_to_8_gons_c2": len(big), "faces_c3": len(k3), "catalogue": len(cat)})
 
     # 3. replay
-    items = expand(tri, rng, both_dirs=not thorough) + expand(big, rng, both_dirs=True) + expand(cat, rng, both_dirs=True)
+    items = expand(tri, rng, both_dirs=not thorough) + expand(big, rng) + expand(k3, rng) + expand(cat, rng)
     seen = set()
+    uniq = []
     for it in items:
-        if it["id"] in seen:
-            raise Machinery("duplicate case id " + it["id"])
-        seen.add(it["id"])
+        if it["id"] not in seen:
+            seen.add(it["id"])
+            uniq.append(it)
+    items = uniq
     bsize = 256
     batches = [(items[k : k + bsize], m_samples) for k in range(0, len(items), bsize)]
     recs = [r for b in pmap(replay_batch, batches, chunk=1) for r in b]
@@ -417,39 +511,62 @@ def run(ctx):
     by_id = {it["id"]: it for it in items}
     rec_by_id = {r["id"]: r for r in recs}
     fam_count = {}
+    hemi = {"one_hemisphere": 0, "touching_or_crossing_equator": 0}
     for it in items:
-        key = (len(it["f"]), tuple(it["fams"]), tuple(it["poles"]), it["cw"])
         ctx.count(1, (it["key"], it["cw"]) if it["fams"] else None)
-        fam_count[key[1]] = fam_count.get(key[1], 0) + 1
-    ctx.note("cases_by_family", {"+".join(k) or "plain": v for k, v in sorted(fam_count.items())})
+        for fam in it["fams"] or ["plain"]:
+            fam_count[fam] = fam_count.get(fam, 0) + 1
+        z = [v[2] for v in it["f"]]
+        hemi["one_hemisphere" if (all(x > 0 for x in z) or all(x < 0 for x in z)) else "touching_or_crossing_equator"] += 1
+    ctx.note("faces_by_family", fam_count)
+    ctx.note("faces_by_hemisphere", hemi)
+    ctx.note("faces_by_size", {str(n): sum(1 for it in items if len(it["f"]) == n) for n in range(3, 9)})
     n_fail = {}
     for rid in sorted(verdicts):
         failed, sig = verdicts[rid]
         it, r = by_id[rid], rec_by_id[rid]
-        replay = {"face_ccw": it["f"], "handed_over_clockwise": it["cw"], "pole_corner_lon": it["plon"], "reported": r.get("box", r.get("error")),
-                  "expected": {"lat_min": it["latmin"], "lat_max": it["latmax"], "lon": it["lon"], "wrap": it["wrap"], "attain_max": it["amax"], "attain_min": it["amin"]}}
+        replay = {
+            "face_ccw": it["f"],
+            "handed_over_clockwise": it["cw"],
+            "pole_corner_lon": it["plon"],
+            "reported": r.get("box", r.get("error")),
+            "expected": {"lat_min": it["latmin"], "lat_max": it["latmax"], "lon": it["lon"], "wrap": it["wrap"], "attain_max": it["amax"], "attain_min": it["amin"]},
+        }
         for clause in failed:
             n_fail[clause] = n_fail.get(clause, 0) + 1
-            s = dict(sig)
-            if clause == "Value":
-                s["error"] = r["error"].split(":")[0]
-            ctx.violation(rid, clause, detail={"failed": failed, "encl": r.get("encl")}, sig=s, replay=replay)
+            ctx.violation(rid, clause, detail={"failed": failed, "encl": r.get("encl")}, sig=violation_sig(clause, sig, r), replay=replay)
     ctx.note("failed_clause_counts", n_fail)
-    for it in (items[:1] + items[len(items) // 2 : len(items) // 2 + 1] + items[-1:]):
+    ctx.note("faces_with_a_failed_clause", len(verdicts))
+    for it in items[:1] + items[len(items) // 2 : len(items) // 2 + 1] + items[-1:]:
         r = rec_by_id[it["id"]]
         ctx.sample({"id": it["id"], "face": it["f"], "expected": {"lat_max": it["latmax"], "lat_min": it["latmin"], "lon": it["lon"], "wrap": it["wrap"]}, "reported": r.get("box", r.get("error"))})
     ctx.exhaustive = thorough
     ctx.rule = (
-        "TLC enumerates convex CCW faces on the primitive directions of the lattice |c|<=2 (thorough: every triangle; "
-        "4..8-gons grown corner by corner from a sample; quick: samples), plus the catalogue's 5..8-gons under the 24 rotations "
-        "and every start corner, keeps those inside the quantifier and emits the exact expected bounds (BoundsSpec.tla). "
-        "Each is handed to Grid.bounds in batches, in both traversal directions; TLC judges the records (JudgeBounds.tla). "
-        "Non-trivial = distinct (face, direction) belonging to at least one targeted family (bulging edge, lowest corner starts a "
-        "bulging edge, prime-meridian / antimeridian crosser, corner at a pole, pole inside)."
+        "TLC enumerates convex CCW faces on the primitive directions of the lattice |c|<=2 (thorough: every triangle, every start corner; "
+        "4..8-gons grown corner by corner from a sample; quick: samples), a sample of 3..8-gons on |c|<=3, plus every catalogue face under the "
+        "24 rotations and every start corner; it keeps those inside the quantifier and emits the exact expected bounds (BoundsSpec.tla). "
+        "Each is handed to Grid.bounds in batches, in both traversal directions, a corner at a pole with longitude 0 and with the west-most "
+        "corner's longitude; TLC judges the records (JudgeBounds.tla). Non-trivial = distinct (face, direction) in at least one targeted family "
+        "(bulging edge, lowest corner starts a bulging edge, prime-meridian / antimeridian crosser, corner at a pole, pole inside)."
     )
     ctx.assumptions += [
         "TLC's evaluator, the CommunityModules Json reader",
         "float evaluation of exact descriptors (atan2 / sqrt) and the property's 1e-9 tolerance are applied by the harness",
-        "enclosure is sampled at %d exact-parameter points per edge; tightness against the exact extreme makes it complete for the lattice faces" % (m_samples + 1),
-        "faces are lattice faces (|c| <= 2, catalogue |c| <= 3): large by mesh standards, which is inside the property's quantifier",
+        "enclosure is sampled at %d exact-parameter points per edge; the tightness clauses against the exact extremes make it complete for lattice faces" % (m_samples + 1),
+        "faces are lattice faces (|c| <= 3): large by mesh standards, which is inside the property's quantifier",
     ]
+
+
+def replay(path):
+    """./check C13 --replay replays/C13_<clause>_<tier>.json : re-run the recorded cases against the implementation."""
+    with open(path) as fh:
+        data = json.load(fh)
+    for v in data["cases"][:25]:
+        rp = v["replay"]
+        it = {"id": v["key"], "f": rp["face_ccw"], "cw": rp["handed_over_clockwise"], "plon": rp["pole_corner_lon"], "lon": rp["expected"]["lon"]}
+        out = {}
+        bounds_of([it], out)
+        print("%s clause=%s" % (v["key"], v["clause"]))
+        print("   expected lat_min=%s lat_max=%s (s*asin sqrt(N/D)) lon=%s wrap=%s" % (rp["expected"]["lat_min"], rp["expected"]["lat_max"], rp["expected"]["lon"], rp["expected"]["wrap"]))
+        print("   reported now: %s   recorded: %s" % (out[it["id"]], rp["reported"]))
+    return 0
